@@ -12,7 +12,7 @@
      oervar <ty> <val> <ch>        -> hex | NONE
      oercdec <ty> <hex>            -> OK <consumed> <val> | FAIL      (the decoder of the C: oer_fetch_length everywhere)
      xoervar <ety> <val> <ch>      -> hex | NONE        ety / values as in drv_ext.ml
-     xoercdec <std> <ety> <hex>    -> OK <consumed> <val> | FAIL
+     xoercdec <ety> <hex>          -> OK <consumed> <val> | FAIL   (a leading std argument is accepted and ignored)
    tag-to-member maps (coq/Rt/TagMap.v):  map := tag:el_no:toff_first:toff_last,... | -     els := tag:optional,... | -
      t2mwf <map>                          -> 1 | 0
      t2mfind <els> <map> <edx> <tag>      -> <member> | N          (SEQUENCE_decode_ber's search, glibc bsearch loop)
@@ -203,8 +203,8 @@ let dispatch cmd args =
        | Some (v, n) -> Some (Printf.sprintf "OK %s %s" (string_of_cz n) (show_val v))
        | None -> Some "FAIL")
   | "xoervar", [t; v; c] -> let t = parse_ety t in Some (hex_opt (ext_oer_var t (ch_of c) (eval_of t v)))
-  | "xoercdec", [std; t; h] ->
-      (match ext_oer_cdecode (std = "1") (parse_ety t) (bytes_of_hex h) with
+  | "xoercdec", [t; h] | "xoercdec", [_; t; h] ->
+      (match ext_oer_cdecode (parse_ety t) (bytes_of_hex h) with
        | Some (v, n) -> Some (Printf.sprintf "OK %s %s" (string_of_cz n) (show_eval v))
        | None -> Some "FAIL")
   | "t2mwf", [m] -> Some (if wf_mapb (parse_map m) then "1" else "0")
